@@ -647,6 +647,11 @@ class CeiloChunk(AbstractChunk):
             pdf[cname] = pdf[cname].astype(bool)
 
         if which == 'slices':
+            # If these very slices were already metarized, preserve their isolation status (assessed
+            # by find_groups()), so that metarizing the slices again changes nothing.
+            if self._slices is not None and self._slices['isolated'].notna().all():
+                prev = dict(zip(self._slices['cluster_id'], self._slices['isolated']))
+                pdf['isolated'] = [prev.get(cid, True) for cid in pdf['cluster_id']]
             pdf['isolated'] = pdf['isolated'].astype(bool)
         if which == 'groups':
             pdf['ncomp'] = pdf['ncomp'].astype(int)
